@@ -457,11 +457,13 @@ class Polynomial(Vector):
         roots = Scalar(root_values, Qube.as_one_bool(root_mask))
         roots = roots.sort(axis=0)
 
-        # Mask duplicated values
+        # Mask duplicated values, working on the sorted values and mask
+        root_values = roots._values_
+        root_mask = np.broadcast_to(roots._mask_, root_values.shape).copy()
         mask_changed = False
         for k in range(1,self.order):
-            mask = ((roots._values_[k,...] == roots._values_[k-1,...]) &
-                     ~roots._mask_[k,...])
+            mask = ((root_values[k,...] == root_values[k-1,...]) &
+                     ~root_mask[k,...])
             if np.any(mask):
                 root_mask[k,...] |= mask
                 mask_changed = True
